@@ -1204,6 +1204,16 @@ MUTANTS = [
         {
             typename node::scoped_type item_locker( erase_node->mutex, /*write=*/true );""", """            this->my_size--;
             typename node::scoped_type item_locker( erase_node->mutex, /*write=*/true );""")]),
+    dict(name='c10-seed5-move-insert-keeps-old-element-locked', prop='C10', clause='D4', edits=[
+        (CHM_H, "    bool generic_move_insert( Accessor && result, value_type && value ) {\n        result.release();\n", "    bool generic_move_insert( Accessor && result, value_type && value ) {\n"),
+        (CHM_H, "    bool insert( const_accessor &result, value_type && value ) {\n        return generic_move_insert(result, std::move(value));",
+         "    bool insert( const_accessor &result, value_type && value ) {\n        result.release();\n        return generic_move_insert(result, std::move(value));")]),
+    dict(name='c10-insert-key-accessor-not-released', prop='C10', clause='D4', edits=[
+        (CHM_H, "    bool insert( accessor &result, const Key &key ) {\n        result.release();\n", "    bool insert( accessor &result, const Key &key ) {\n")]),
+    dict(name='c10-find-const-accessor-not-released', prop='C10', clause='D4', edits=[
+        (CHM_H, "    bool find( const_accessor &result, const Key &key ) const {\n        result.release();\n", "    bool find( const_accessor &result, const Key &key ) const {\n")]),
+    dict(name='c10-emplace-releases-after-lookup', prop='C10', clause='D4', edits=[
+        (CHM_H, "    bool generic_emplace( Accessor && result, Args &&... args ) {\n        result.release();\n", "    bool generic_emplace( Accessor && result, Args &&... args ) {\n        if (this->my_size.load(std::memory_order_relaxed) != 0) result.release();\n")]),
     # ---------------------------------------------------------------- C11
     dict(name='c11-int-delta-regression', prop='C11', clause='D6', edits=[
         (CV_H, "        if (old_size < new_size) {\n            return internal_grow(old_size, new_size, args...);\n        }",
@@ -2085,6 +2095,12 @@ BENIGN = [
     dict(name='c16-b-rename-locals', prop='C16', edits=[('re', AS_CPP, r'\bomit\b', 'skip_it'), ('re', AR_CPP, r'\bindex2\b', 'idx_b')]),
     dict(name='c01-b-rename-locals', prop='C01', edits=[('re', AS_CPP, r'\bvictim_pool\b', 'vp'), ('re', AS_CPP, r'\btasks_omitted\b', 'skipped')]),
     dict(name='c08-b-rename-locals', prop='C08', edits=[('re', 'src/tbb/rtm_mutex.cpp', r'\bonly_speculate\b', 'spec_only'), ('re', QRW_CPP, r'\bpredecessor\b', 'pred0')]),
+    dict(name='c10-b-release-in-the-overloads', prop='C10', edits=[
+        (CHM_H, "    bool generic_move_insert( Accessor && result, value_type && value ) {\n        result.release();\n", "    bool generic_move_insert( Accessor && result, value_type && value ) {\n"),
+        (CHM_H, "    bool insert( const_accessor &result, value_type && value ) {\n        return generic_move_insert(result, std::move(value));",
+         "    bool insert( const_accessor &result, value_type && value ) {\n        result.release();\n        return generic_move_insert(result, std::move(value));"),
+        (CHM_H, "    bool insert( accessor &result, value_type && value ) {\n        return generic_move_insert(result, std::move(value));",
+         "    bool insert( accessor &result, value_type && value ) {\n        result.release();\n        return generic_move_insert(result, std::move(value));")]),
     dict(name='c10-b-rename-locals', prop='C10', edits=[('re', CHM_H, r'\breturn_value\b', 'rv'), ('re', CHM_H, r'\berase_node\b', 'victim')]),
     dict(name='c02-b-rename-locals', prop='C02', edits=[('re', CQ_H, r'\bpresent\b', 'got_one')]),
     dict(name='c18-b-rename-locals', prop='C18', edits=[('re', FE_CPP, r'\bmemptr\b', 'outp'), ('re', FE_CPP, r'\bunaligned\b', 'raw0')]),
